@@ -63,7 +63,7 @@ def lane(i):
                 res = {p: {"outcome": "TROUBLE", "detail": "patch does not apply: " + ap.stderr[-200:]} for p in meta["breaks"]}
             else:
                 for p in meta["breaks"]:
-                    r = subprocess.run(["./check", p, tier], cwd=verif, env=env, capture_output=True, text=True)
+                    r = subprocess.run(["./check", p, tier], cwd=verif, env=env, capture_output=True, text=True, errors="replace")
                     lines = [l for l in r.stdout.splitlines() if l.startswith(("violation ", "VIOLATION", "OK ", "NOT-REPLAYABLE", "BUILD-FAILED", "NONDET", "STARVED", "WATCHDOG", "EMPTY"))]
                     if r.returncode == 1 and any(l.startswith("VIOLATION") for l in lines):
                         oc = "CAUGHT"
